@@ -131,6 +131,13 @@ def family():
                multisection('tb', '+', attr='bs'),
                key('kx', default=''), key('ky', 'basic-key', default='Ab')],
         datatype=WRAP)
+    # a section type whose '+' multikey has keyed defaults: two sections of one text (or two loads) that both
+    # leave the map to its defaults share nothing but the schema's description of them
+    F['S15'] = schema(
+        types=[stype('ta', [multikey('+', attr='mm', dt='integer', defaults=[('da', '1'), ('da', '2'), ('db', '3')]),
+                            multikey('kl', defaults=['x  y', 'a\tb']),
+                            key('ka', 'string-list', default='p q')])],
+        items=[multisection('ta', '*', attr='ms'), section('ta', 'sa')])
     # ---- thorough-only members
     F['S9'] = schema(
         types=[stype('ta', [key('+', attr='mp', required=True)])],
@@ -156,7 +163,7 @@ def family():
     return F
 
 
-QUICK = ['S1', 'S2', 'S3', 'S4', 'S5', 'S6', 'S7', 'S8', 'S9', 'S13', 'S14']
+QUICK = ['S1', 'S2', 'S3', 'S4', 'S5', 'S6', 'S7', 'S8', 'S9', 'S13', 'S14', 'S15']
 THOROUGH = QUICK + ['S10', 'S11', 'S12']
 
 
